@@ -268,10 +268,10 @@ func (r *runner) Op(t []string) string {
 // which path spelling a request uses does not matter to the model
 var pathRand = h.NewRand(7)
 
-// spin keeps a signalling goroutine busy for about a microsecond (inside the
+// spin keeps a signalling goroutine busy for about 20 microseconds (inside the
 // operation's interval) so that signals overlap the much slower requests
 func spin() {
-	for t0 := time.Now(); time.Since(t0) < time.Microsecond; {
+	for t0 := time.Now(); time.Since(t0) < 20*time.Microsecond; {
 	}
 }
 
@@ -496,7 +496,7 @@ func genConc(r *h.Rand, tier string) []string {
 			continue
 		}
 		if storm {
-			nops = 30 + r.Intn(60)
+			nops = 150 + r.Intn(150)
 		}
 		for i := 0; i < nops; i++ {
 			x := r.Intn(100)
